@@ -40,9 +40,9 @@ var propConfigs = map[string]propConfig{
 		Explain: "Event history: syncSaveEvent keeps at most limit entries dropping the oldest, syncPubEvent saves exactly the unrestricted publications with id, arguments and subscription, independent of subscribers.",
 		Assume: []string{"github.com/gammazero/deque is a sequence ADT (PushBack/PopFront/Len/At)"}},
 	"C04": {ID: "C04", Level: "proof", SafetyOnly: true,
-		Sweep: []string{repoMod + "/router.", repoMod + "/wamp.", repoMod + "/router/auth."},
+		Sweep: []string{repoMod + "/router.", repoMod + "/wamp.", repoMod + "/router/auth.", repoMod + "/transport."},
 		SweepSkip: sweepSkipC04,
-		Explain: "Zero-annotation safety sweep: for every function of router, wamp and router/auth the generator emits, without any annotation, an obligation for each failed type assertion, index or slice out of range, nil map store, nil dereference, nil function or interface call, division by zero, explicit panic and close of a nil channel that the function could execute; messages from peers are arbitrary (any of the message structs with any Dict/List content of any dynamic types). Functions under contract for other properties contribute their safety obligations; their functional clauses are assumed here and proved by those properties' checks.",
+		Explain: "Zero-annotation safety sweep: for every function of router, wamp, router/auth and transport the generator emits, without any annotation, an obligation for each failed type assertion, index or slice out of range, nil map store, nil dereference, nil function or interface call, division by zero, explicit panic and close of a nil channel that the function could execute; messages from peers are arbitrary (any of the message structs with any Dict/List content of any dynamic types). Functions under contract for other properties contribute their safety obligations; their functional clauses are assumed here and proved by those properties' checks.",
 		Assume: []string{
 			"functions without contract are checked under the default precondition that pointer parameters and receivers are not nil (a nil pointer is never produced from client input)",
 			"values received from channels satisfy the declared channel-value invariants (checked at every send in a verified function); values in maps with a declared value invariant likewise",
@@ -194,6 +194,8 @@ var sweepSkipC04 = []string{
 	"router.NewRouter", "router.NewWebsocketServer", "router.NewRawSocketServer", "(*github.com/gammazero/nexus/v3/router.router).logMemStats",
 	// HTTP / websocket / rawsocket server glue: depends on net/http and gorilla objects outside the model
 	"router.WebsocketServer)", "router.RawSocketServer)", "router.checkOrigin", "router.protocol",
+	// client-side connection set-up of the transports (URLs, TLS configuration, dialers)
+	"transport.ConnectRawSocketPeer", "transport.ConnectWebsocketPeer",
 	// package initialisers
 	".init",
 }
